@@ -2,7 +2,7 @@
 Decided: operator / width / signedness selection tables and operand wiring."""
 import re
 
-from .. import hir
+from .. import hir, mir
 from ..facts import relfile
 from ..report import RuleResult
 
@@ -845,6 +845,50 @@ def rule_t8(F):
     return r
 
 
+def rule_t9(F):
+    """Control flow of compiled code: an LIR `Switch` transfers to the label whose INDEX equals the examinee (else to the default).
+    The code generator realises it with cranelift's Switch keyed by each branch's own index; a conditional branch on the raw
+    examinee ('non-zero') is only equivalent for the indices 0 and 1 of booleans - a one-armed `match x { Green => .., _ => .. }`
+    on the third variant would take the arm.  Who may branch conditionally: Switch::emit, or a `brif` whose condition is an
+    integer comparison with the branch index."""
+    r = RuleResult("C01.T9", "codegen of Switch: every branch is selected by equality with its own index (no branch on the raw examinee)", floor=1)
+    bodies = [b for b in F.bodies_in(["src/codegen/mod.rs"]) if b.mir and "FuncGen" in b.path and "::tests::" not in b.path]
+    n_emit = 0
+    for b in bodies:
+        defs = None
+        for bi, t in mir.calls(b):
+            d = mir.callee_def(t) or mir.callee(t) or ""
+            n = hir.last(d)
+            if n in ("brif", "brnz", "brz", "br_table") and ("InstBuilder" in d or "cranelift" in d):
+                defs = defs or mir.Defs(b)
+                cond = t["args"][1] if len(t["args"]) > 1 else None
+                srcs = {hir.last(mir.callee_def(b.blocks[x]["term"]) or "") for x in mir.back_calls(b, defs, cond[1][0])} if mir.is_place_op(cond) else set()
+                compared = bool(srcs & {"icmp", "icmp_imm", "fcmp"})
+                r.inst("%s %s #%d" % (hir.last(b.path.split("::{closure")[0]), n, len(r.instances)), {"fn": b.path, "line": t.get("line"), "condition_from": sorted(x for x in srcs if x)[:6]})
+                if not compared:
+                    r.bad(b.path, "%s on a value that is not a comparison" % n, relfile(b.file), t.get("line"),
+                          "generated code branches on whether a value is non-zero instead of on a comparison with the branch index: for a Switch this is only right for indices 0 / 1 "
+                          "(a one-armed match on the third variant of an enum takes the arm of the second)")
+            if n == "emit" and "Switch" in d:
+                defs = defs or mir.Defs(b)
+                n_emit += 1
+                # every set_entry of this function keys the block by the branch's own index
+                entries = [(ei, et) for ei, et in mir.calls(b) if hir.last(mir.callee_def(et) or "") == "set_entry" and "Switch" in (mir.callee_def(et) or "")]
+                ok_entries = bool(entries)
+                for ei, et in entries:
+                    k_ = mir.origin_key(b, defs, et["args"][1][1]) if len(et["args"]) > 2 and mir.is_place_op(et["args"][1]) else ""
+                    b_ = {hir.last(mir.callee(b.blocks[x]["term"]) or "") for x in mir.back_calls(b, defs, et["args"][2][1][0])} if len(et["args"]) > 2 and mir.is_place_op(et["args"][2]) else set()
+                    # index = component 0 of the iterated (index, label) pair, block = get_block(component 1)
+                    if not (re.search(r"\.0(\.|$)", k_) and "get_block" in b_):
+                        ok_entries = False
+                r.inst("%s Switch::emit" % hir.last(b.path), {"fn": b.path, "line": t.get("line"), "entries_keyed_by_branch_index": ok_entries, "set_entry_sites": len(entries)})
+                if not ok_entries:
+                    r.bad(b.path, "Switch entries", relfile(b.file), t.get("line"), "the cranelift Switch is not filled with (branch index -> block of that branch's label) for every branch")
+    if n_emit < 1:
+        r.missing("the cranelift Switch::emit that realises lir::Instruction::Switch")
+    return r
+
+
 def rules(ctx):
     F = ctx["F"]
-    return [rule_t1(F), rule_t2(F), rule_t3(F), rule_t4(F), rule_t5(F), rule_t6(F), rule_t7(F), rule_t8(F)]
+    return [rule_t1(F), rule_t2(F), rule_t3(F), rule_t4(F), rule_t5(F), rule_t6(F), rule_t7(F), rule_t8(F), rule_t9(F)]
